@@ -6,7 +6,7 @@ import ast
 
 from ..cfg import WithCtx
 from ..core import rule
-from ..dataflow import DefUse
+from ..dataflow import DefUse, origins
 from ..program import AnalysisError, dotted, src
 from ..core import walk_local  # inline-aware
 from .common import where
@@ -165,7 +165,9 @@ def b1(ctx):
             blob_ok = False
             for m in cfg.stmt_nodes():
                 if m.kind == "stmt" and isinstance(m.ast, ast.Assign) and isinstance(m.ast.targets[0], ast.Subscript):
-                    ids = [dotted(x.value) for x in ast.walk(m.ast.value) if isinstance(x, ast.Attribute) and x.attr == "id"]
+                    # the entry value, also when it was built in a local first (`new_entry = (mode, b.id)`)
+                    vals = [m.ast.value] + [o.leaf for o in origins(DefUse(cfg), m, m.ast.value) if o.kind == "expr" and o.leaf is not None]
+                    ids = [dotted(x.value) for v_ in vals for x in ast.walk(v_) if isinstance(x, ast.Attribute) and x.attr == "id"]
                     for bv in ids:
                         have = [mm for mm, names in adds if bv in names]
                         if have and all(cfg.normal_completion_dominates(have, cn) for cn in commits):
